@@ -184,6 +184,15 @@ class C13(PropCheck):
                     if not lossy_here and len(first_tx) != 1:
                         what = (f"op {k}: message {oct(src)}->{oct(dst)} type {typ}: the delivering node transmitted {len(first_tx)} NETWORK_ACKs, "
                                 "expected exactly one")
+                    # ground truth of delivery: a NETWORK_ACK is the claim "the frame reached its destination"
+                    delivered = any(r["type"] == typ and r["to"] == dst and r["from"] == src and (r["ok"] or ack_loss)
+                                    and r["sender"] is not None and adjacent(r["sender"], dst) for r in recs)
+                    if first_tx and not delivered:
+                        what = (f"op {k}: message {oct(src)}->{oct(dst)} type {typ}: node {oct(first_tx[0]['sender'])} sent a "
+                                "NETWORK_ACK although its transmission to the destination was not received")
+                    elif r0 == "T" and not delivered:
+                        what = (f"op {k}: write() {oct(src)}->{oct(dst)} type {typ} returned True but the frame never "
+                                "reached the destination's radio")
                     if not lossy_here and r0 != "T":
                         what = f"op {k}: loss-free routed message {oct(src)}->{oct(dst)} type {typ}: write() returned {r0}"
                 if what:
